@@ -77,8 +77,10 @@ class Fixture:
         base = dict(L.SSEConfig.get_default_config())
         if "param_identifier_size" in base:
             base["param_identifier_size"] = 8
-        self.c1 = dict(base, salt="aa" * 16)
-        self.c2 = dict(base, salt="bb" * 16)
+        # (a configuration may carry entries the scheme ignores, like the client's own "salt": here a description that is
+        # not ASCII - what is stored and read back must not depend on the interpreter's default text encoding)
+        self.c1 = dict(base, salt="aa" * 16, description="Gr\u00f6\u00dfe \u2014 \u6570\u636e\u5e93 \u2126")
+        self.c2 = dict(base, salt="bb" * 16, description="r\u00e9sum\u00e9 \U0001f512")
         sch = L.SSEScheme(base)
         self.key = sch.KeyGen()
         self.kw = b"keyword"
